@@ -33,6 +33,28 @@ fn main() {
     let args = Args::parse();
     let which = args.positional.first().cloned().unwrap_or_default();
     let mut rep = Report::new(&which);
+    // A panic that escapes a monitor (inside mmtk-core during a legal call, or an internal
+    // consistency assertion of the monitor tripping over what mmtk returned) is reported as a
+    // violation with the panic location as its signature, not as a harness failure.
+    static LAST_PANIC: std::sync::Mutex<Option<(String, String)>> = std::sync::Mutex::new(None);
+    let default_hook = std::panic::take_hook();
+    std::panic::set_hook(Box::new(move |info| {
+        let loc = info.location().map(|l| format!("{}:{}", l.file().rsplit("/src/").next().unwrap_or(l.file()), l.line())).unwrap_or_default();
+        *LAST_PANIC.lock().unwrap_or_else(|e| e.into_inner()) = Some((loc, format!("{}", info)));
+        default_hook(info);
+    }));
+    let outcome = std::panic::catch_unwind(std::panic::AssertUnwindSafe(|| dispatch(&which, &args, &mut rep)));
+    if outcome.is_err() {
+        let (loc, msg) = LAST_PANIC.lock().unwrap_or_else(|e| e.into_inner()).clone().unwrap_or_default();
+        rep.violation(format!("panic-escaped-the-monitor:{}", loc), format!("the monitor run was aborted by a panic: {}", msg.chars().take(600).collect::<String>()));
+    }
+    rep.print();
+}
+
+fn dispatch(which: &str, args: &Args, rep: &mut Report) {
+    let which = which.to_string();
+    let mut rep = rep;
+    let args = args;
     match which.as_str() {
         "C17" => c17::run(&args, &mut rep),
         "C18" => c18::run(&args, &mut rep),
@@ -61,5 +83,4 @@ fn main() {
             std::process::exit(2);
         }
     }
-    rep.print();
 }
